@@ -155,6 +155,12 @@ void h_ind_import(void) { ND(U32, below); ND(U32, base); U32 r; ASSUME(base <= 2
     r = MODNAME_ind0(&inst, below, 4);
     OBL(g_h0_calls == 1 && g_h_inst == (void*)&inst && r == (below ^ g_h0_ret[0]), "call_indirect to an IMPORTED function placed in the table by an element segment: the host function is called with the instance, its result delivered");
     CANARY("ind_import"); }
+void h_newchild(void) { ND(U32, a); ND(U32, b); ND(U32, base); MODNAMEInstance* child; U32 r; ASSUME(base <= 2); setup(base);
+    child = MODNAMENewChild(&inst);
+    ASSUME(child != 0);
+    r = MODNAME_ind(child, a, b, base);
+    OBL(r == a - b, "child instance (thread): its table is initialised from the element segments - offsets read from ITS imported globals, which are bound first - and dispatches like the parent");
+    CANARY("newchild"); }
 void h_elem(void) { ND(U32, base); ND(U32, k); ASSUME(base <= 2 && k < 8); setup(base);
     OBL(TAB.data[base] != (wasmFunc)sentinel && TAB.data[base + 1] != (wasmFunc)sentinel && TAB.data[5] != (wasmFunc)sentinel && TAB.data[6] != (wasmFunc)sentinel && TAB.data[7] != (wasmFunc)sentinel && TAB.data[4] != (wasmFunc)sentinel,
         "element segments: every listed slot of the designated (defined or imported) table is initialised, with a constant or an imported-global offset");
@@ -192,7 +198,7 @@ def make_jobs(ctx):
                              ("h_callmix", "call (direct)", {}), ("h_callmixperm", "call (direct)", {}),
                              ("h_tri", "call (recursive)", dict(bounded="recursion depth <= 5 (n <= 4)")),
                              ("h_evenodd", "call (mutually recursive)", dict(bounded="recursion depth <= 5 (n <= 4)")),
-                             ("h_ind", "call_indirect", {}), ("h_indbelow", "call_indirect", {}), ("h_ind0", "call_indirect", {}), ("h_ind_import", "call_indirect (imported function in the table)", {}), ("h_elem", "element segments / InitTables", {})):
+                             ("h_ind", "call_indirect", {}), ("h_indbelow", "call_indirect", {}), ("h_ind0", "call_indirect", {}), ("h_newchild", "NewChild + call_indirect", {}), ("h_ind_import", "call_indirect (imported function in the table)", {}), ("h_elem", "element segments / InitTables", {})):
             jobs.append(Job("G.%s.%s" % (tag, h[2:]), hp, entry=h, includes=[d, os.path.join(ctx.repo, "w2c2")],
                             flags=["--unwind", "10", "--unwinding-assertions"], funcs=["generated:%s %s" % (modname, fn)],
                             replay=lambda c, j, p, v: native_replay_generic(c, j, p, v),
